@@ -3,14 +3,14 @@ VIEW View
 CONSTANTS
   Streams = {}
   Pushed = {}
-  Remote = {1, 3}
+  Remote = {1}
   InitWin = 1
   ConnWin = 2
   RecvWin = 4
   MaxBuf = 4
   MaxSend0 = 1
   NCall = 3
-  NApp = 2
+  NApp = 3
   NPeer = 3
   MaxData = 1
   CallKinds = {"poll_capacity", "poll_reset", "poll_data"}
@@ -19,7 +19,7 @@ CONSTANTS
   IwsVals = {}
   MaxcVals = {}
   ReqEos = {FALSE}
-  Allow = {}
+  Allow = {"shared_slot", "push_after_recv_drop", "cancel_pending_open"}
   ExportLen = 0
 INVARIANT InvC06
 INVARIANT InvC06conn
